@@ -508,3 +508,221 @@ class DefaultFromAlter:
 
     def spec(case, self_, statement):
         self_.columns = seq_map(set_default_exact(statement["default"]["columns"], statement["default"]["value"]), self_.columns)
+
+
+# ------------------------------------------------------------------ routing of ALTER / INDEX records to their table
+# Output.process_alter_and_index_result -> add_index_to_table / add_alter_to_table -> get_table_from_tables_data are
+# verified TOGETHER (inlined): the record reaches exactly the table registered under (name, schema), every other table
+# of the registry (same name in another schema, other names) is untouched, a missing target raises ValueError and
+# changes nothing - in particular the record is not kept in the result.  What the table then does with an ALTER record
+# (BaseData.append_statement_information_to_table) is abstract here (ghost event naming the receiving table) and is the
+# subject of the per-kind contracts above and of AlterRecordDispatch below.
+from contracts.lib import ghost_call, opaque  # noqa: E402
+
+
+def routed_registry(G):
+    keys = [("orders", None), ("orders", "shop"), ("orders", "crm"), ("items", "shop")]
+    return {k: G.obj("BaseData", table_name=k[0], schema=k[1], marker=G.str("marker.%s.%s" % k), index=G.oseq("index.%s.%s" % k, elem=lambda g, n: g.str(n)))
+            for k in keys}
+
+
+def find_target(registry, name, schema):
+    for key in registry:
+        if key[0] == name and key[1] == schema:
+            return registry[key]
+    return None
+
+
+@contract
+class AlterRecordStub:
+    """ASSUMED at this level (per-kind contracts cover the handlers): the table applies the record to itself only"""
+    fn = "output.base_data.BaseData.append_statement_information_to_table"
+    props = []
+    modular = True
+    cases = {"-": {}}
+
+    def build(G, case):
+        return dict(args=[G.obj("BaseData", table_name="t", schema=None, marker="m"), {}])
+
+    def spec(case, self_, statement):
+        ghost_call("alter-applied", self_.table_name, self_.schema, self_.marker, statement)
+
+
+@contract
+class RouteAlterOrIndex:
+    fn = "output.core.Output.process_alter_and_index_result"
+    props = ["C04", "C03", "C13"]
+    raises = ("ValueError",)
+    cases = {"index, default mode": dict(kind="index", mode="sql", key="schema"), "index, mssql mode": dict(kind="index", mode="mssql", key="schema"),
+             "index, bigquery mode (record carries schema)": dict(kind="index", mode="bigquery", key="dataset"),
+             "alter": dict(kind="alter", mode="sql", key="schema"), "alter, bigquery mode": dict(kind="alter", mode="bigquery", key="dataset"),
+             "neither": dict(kind="other", mode="sql", key="schema")}
+
+    def build(G, case):
+        out = G.obj("Output", tables_dict=routed_registry(G), output_mode=case["mode"], schema_key=case["key"], group_by_type=False,
+                    final_result=G.oseq("already reported", elem=lambda g, n: g.str(n)), parser_output=[])
+        schema = [None, G.str("schema", r"[a-z_0-9]+", "shop")][G.choice("schema?", 2)]
+        name = G.str("table", r"[a-z_0-9]+", "orders")
+        if case["kind"] == "index":
+            rec = {"index_name": G.str("index", NAME), "schema": schema, "table_name": name, "columns": G.str("columns payload"), "unique": G.bool("unique"),
+                   "clustered": G.bool("clustered"), "detailed_columns": G.str("detailed payload")}
+        elif case["kind"] == "alter":
+            rec = {"alter_table_name": name, "schema": schema, "payload": G.str("alter payload")}
+        else:
+            rec = {"payload": G.str("payload")}
+        return dict(args=[out, rec])
+
+    def spec(case, self_, table):
+        if case["kind"] == "index":
+            target = find_target(self_.tables_dict, table["table_name"], table["schema"])
+            if target is None:
+                raise ValueError("no such table")
+            # the record loses the routing keys (and `clustered` outside MSSQL mode) and is appended to the table's indexes
+            del table["schema"]
+            del table["table_name"]
+            if case["mode"] != "mssql":
+                del table["clustered"]
+            target.index.append(table)
+        elif case["kind"] == "alter":
+            target = find_target(self_.tables_dict, table["alter_table_name"], table["schema"])
+            if target is None:
+                raise ValueError("no such table")
+            ghost_call("alter-applied", target.table_name, target.schema, target.marker, table)
+
+
+ALTER_KINDS = {          # key of the record -> handlers of the table, in order
+    "columns": ["add-columns"], "columns_to_rename": ["rename-columns"], "columns_to_drop": ["drop-columns"], "columns_to_modify": ["modify-columns"],
+    "check": ["add-check"], "unique": ["record-alter:unique", "flag-unique-columns"], "default": ["record-alter:default", "set-default-columns"],
+    "primary_key": ["record-alter:primary_key"],
+}
+
+
+@contract
+class AlterRecordDispatch:
+    """an ALTER record is handled by the handler(s) of its own kind, once, and by nothing else; a record of no known kind
+    changes nothing.  The handlers are abstract here (ghost events); each has its own contract above."""
+    fn = "output.base_data.BaseData.append_statement_information_to_table"
+    props = ["C04"]
+    abstract_callees = True
+    stub_calls = {
+        "output.base_data.BaseData.prepare_alter_columns": "add-columns",
+        "output.base_data.BaseData.alter_rename_columns": "rename-columns",
+        "output.base_data.BaseData.alter_drop_columns": "drop-columns",
+        "output.base_data.BaseData.alter_modify_columns": "modify-columns",
+        "output.base_data.BaseData.process_check_in_statement": "add-check",
+        "output.base_data.BaseData.set_alter_to_table_data": "record-alter",
+        "output.base_data.BaseData.set_unique_columns_from_alter": "flag-unique-columns",
+        "output.base_data.BaseData.set_default_columns_from_alter": "set-default-columns",
+    }
+    cases = dict([(k, dict(key=k)) for k in ALTER_KINDS] + [("unknown kind", dict(key=None))])
+
+    def build(G, case):
+        t = G.obj("BaseData", columns=G.oseq("cols", elem=light_col), alter={}, primary_key=[], table_name=G.str("t", NAME), schema=None)
+        rec = {"alter_table_name": G.str("t", NAME), "schema": None}
+        if case["key"] is not None:
+            rec[case["key"]] = G.str("payload of the record")
+        return dict(args=[t, rec])
+
+    def spec(case, self_, statement):
+        if case["key"] is not None:
+            for h in ALTER_KINDS[case["key"]]:
+                if h.startswith("record-alter:"):
+                    ghost_call("record-alter", self_, h.split(":")[1], statement)
+                else:
+                    ghost_call(h, self_, statement)
+
+
+# ------------------------------------------------------------------ the remaining ALTER handlers of the table
+def alter_section(G, key, case):
+    """the table's alter section before the statement: the list of this kind absent / empty / holding earlier records"""
+    if case["before"] == "absent":
+        return {}
+    if case["before"] == "empty":
+        return {key: []}
+    return {key: G.oseq("earlier " + key, elem=lambda g, n: g.str(n))}
+
+
+BEFORE = ["absent", "empty", "some"]
+
+
+@contract
+class RecordAlter:
+    """ADD UNIQUE / DEFAULT / PRIMARY KEY: the record of the statement is appended to the table's alter section under
+    the plural key (with the USING clause when the statement has one); earlier records stay, in order"""
+    fn = "output.base_data.BaseData.set_alter_to_table_data"
+    props = ["C04"]
+    cases = {"%s, %s before, using=%s" % (k, b, u): dict(key=k, before=b, using=u) for k in ("unique", "default", "primary_key") for b in BEFORE for u in (False, True)}
+
+    def build(G, case):
+        key = case["key"]
+        t = G.obj("BaseData", columns=G.oseq("cols", elem=light_col), alter=alter_section(G, key + "s", case), primary_key=[], table_name=G.str("t", NAME), schema=None)
+        st = {"alter_table_name": G.str("t", NAME), "schema": None, key: {"constraint_name": G.str("cname"), "columns": G.oseq("stmt cols", elem=lambda g, n: g.str(n, NAME))}}
+        if case["using"]:
+            st["using"] = G.str("using")
+        return dict(args=[t, key, st])
+
+    def spec(case, self_, key, statement):
+        rec = statement[key]
+        if case["using"]:
+            rec["using"] = statement["using"]
+        if case["before"] == "absent":
+            self_.alter[key + "s"] = [rec]
+        else:
+            self_.alter[key + "s"].append(rec)
+
+
+@contract
+class AddCheckFromAlter:
+    """ADD CHECK: the check (its text as one string) is appended to alter['checks']; earlier checks stay, in order"""
+    fn = "output.base_data.BaseData.process_check_in_statement"
+    props = ["C04", "C07"]
+    cases = {"%s before, text as %s" % (b, f): dict(before=b, form=f) for b in BEFORE for f in ("string", "words")}
+
+    def build(G, case):
+        t = G.obj("BaseData", columns=G.oseq("cols", elem=light_col), alter=alter_section(G, "checks", case), primary_key=[], table_name=G.str("t", NAME), schema=None)
+        text = G.str("check text") if case["form"] == "string" else [G.str("w0", NAME), G.str("w1", NAME), G.str("w2", NAME)]
+        return dict(args=[t, {"alter_table_name": G.str("t", NAME), "schema": None, "check": {"constraint_name": G.str("cname"), "statement": text}}])
+
+    def spec(case, self_, statement):
+        chk = statement["check"]
+        if case["form"] == "words":
+            chk["statement"] = chk["statement"][0] + " " + chk["statement"][1] + " " + chk["statement"][2]
+        if case["before"] == "absent":
+            self_.alter["checks"] = [chk]
+        else:
+            self_.alter["checks"].append(chk)
+
+
+def has_column(cols, name):
+    for c in cols:
+        if norm(c["name"]) == norm(name):
+            return True
+    return False
+
+
+@contract
+class AddColumnsFromAlter:
+    """ADD COLUMN: every added column is recorded in alter['columns'] (after earlier records) and appended to the column
+    list unless the table already has a column of that name (irrespective of quoting and letter case).
+    SHAPE-BOUNDED: tables of 0..2 columns, 1..2 added columns."""
+    fn = "output.base_data.BaseData.prepare_alter_columns"
+    props = ["C04"]
+    cases = {"%d table columns, %d added, %s before" % (n, a, b): dict(n=n, a=a, before=b) for n in (0, 1, 2) for a in (1, 2) for b in ("absent", "some")
+             if b == "absent" or (n, a) in ((0, 1), (1, 1), (1, 2))}
+
+    def build(G, case):
+        t = table_obj(G, case["n"])
+        t.alter = alter_section(G, "columns", case)
+        added = [plain_col(G, "new%d" % i) for i in range(case["a"])]
+        return dict(args=[t, {"alter_table_name": G.str("t", NAME), "schema": None, "columns": added}])
+
+    def spec(case, self_, statement):
+        before = list(self_.columns)
+        if case["before"] == "absent":
+            self_.alter["columns"] = list(statement["columns"])
+        else:
+            for c in statement["columns"]:
+                self_.alter["columns"].append(c)
+        for c in statement["columns"]:
+            if not has_column(before, c["name"]):
+                self_.columns.append(c)
